@@ -501,18 +501,22 @@ class ExcelCompiler:
             cell_or_range.value = value
 
     def _reset(self, cell, force=False):
-        if cell.needs_calc and not force and not (
-                isinstance(cell, _CellRange) and cell.formula is None):
-            # force is for the cell being set, which might be set to None.
+        def may_hide_values(a_cell):
             # A plain range can be without a value while a formula which only
-            # refers to it (A1:B2 in =SUM(A1:B2 B1:C2)) holds one
+            # refers to it (A1:B2 in =SUM(A1:B2 B1:C2)) holds one, and so can
+            # a whole column or row whose data is one empty cell
+            return (a_cell.address.is_unbounded_range or
+                    isinstance(a_cell, _CellRange) and a_cell.formula is None)
+
+        if cell.needs_calc and not force and not may_hide_values(cell):
+            # force is for the cell being set, which might be set to None
             return
         self.log.info(f"Resetting {cell.address}")
         cell.value = None
 
         if cell in self.dep_graph:
             for child_cell in self.dep_graph.successors(cell):
-                if child_cell.value is not None:
+                if child_cell.value is not None or may_hide_values(child_cell):
                     self._reset(child_cell)
 
     def value_tree_str(self, address, indent=0):
